@@ -22,3 +22,20 @@ Definition table_oracles (tbl : list (list Z * list Z)) : Oracles :=
   {| o_hash := fun alg data => table_lookup tbl (1 :: alg_code alg :: data);
      o_hmac := fun alg key data =>
        table_lookup tbl (2 :: alg_code alg :: zlen key / 256 :: zlen key mod 256 :: key ++ data) |}.
+
+(* block-cipher oracle backed by a recorded table: query = direction :: key length :: key ++ block *)
+Definition table_block_oracle (tbl : list (list Z * list Z)) : BlockOracle :=
+  {| bo_enc := fun key blk => table_lookup tbl (1 :: zlen key :: key ++ blk);
+     bo_dec := fun key blk => table_lookup tbl (2 :: zlen key :: key ++ blk) |}.
+
+(* a toy invertible "block cipher": add the key bytes (cyclically) and rotate the block by one position *)
+Definition toy_blk_enc (key blk : list Z) : list Z :=
+  let k := fun i => nthZ key (i mod (Z.max 1 (zlen key))) in
+  let x := map (fun p => (snd p + k (fst p)) mod 256) (combine (zrange 0 (zlen blk)) blk) in
+  skipn 1 x ++ firstn 1 x.
+Definition toy_blk_dec (key blk : list Z) : list Z :=
+  let k := fun i => nthZ key (i mod (Z.max 1 (zlen key))) in
+  let n := List.length blk in
+  let x := skipn (n - 1) blk ++ firstn (n - 1) blk in
+  map (fun p => (snd p - k (fst p)) mod 256) (combine (zrange 0 (zlen x)) x).
+Definition toy_block_oracle : BlockOracle := {| bo_enc := toy_blk_enc; bo_dec := toy_blk_dec |}.
